@@ -22,7 +22,7 @@ func (c04) ID() string { return "C04" }
 func (c04) Meta(tier string) engine.Meta {
 	return engine.Meta{
 		Level: "model_checking",
-		Rule: "for every documented overload (polymorphic ones instantiated over {num,str,list[num],{a,b},maybe[num]} / map[str,num] / map[num,str]) the full grid of argument tuples from the per-type boundary pools, each as environment data (raw and host map) and as literals; every numeric literal text of <=5 characters over {0 1 9 a f x b o e E . + -} that the documented grammar accepts; every string escape; absolute date-time forms over a calendar grid; depth-2 compositions over the small alphabet (quick: every f(…,g(atoms),…) with one nested operand; thorough: all of depth 2). non-trivial = the case reaches a built-in (all but bare literals)",
+		Rule: "for every documented overload (polymorphic ones instantiated over {num,str,list[num],{a,b},maybe[num]} / map[str,num] / map[num,str]) the full grid of argument tuples from the per-type boundary pools, each as environment data (raw and host map; raw also with every argument read again after the call, {r: f(x0,x1), p0: x0, p1: x1}) and as literals; every comparison operator under !, not, !!, inside if / && / == over numbers, strings, instants and booleans; pairs of numeric / string literals in one program that are equal, within the comparison tolerance or just outside it; every numeric literal text of <=5 characters over {0 1 9 a f x b o e E . + -} that the documented grammar accepts; every string escape; absolute date-time forms over a calendar grid; depth-2 compositions over the small alphabet (quick: every f(…,g(atoms),…) with one nested operand; thorough: all of depth 2). non-trivial = the case reaches a built-in (all but bare literals)",
 		Bound: "grids: 24 numbers × 24 numbers per binary numeric overload, 12 strings, 7 lists, 4 maps …; literal texts up to 5 characters; compositions depth 2",
 		Assumptions: []string{
 			"numeric tolerance, truncating %, index truncation, rendering formats are the documented / README definitions re-implemented in mc/ref",
@@ -118,6 +118,16 @@ func (c04) Generate(tier string, yield func(*engine.Case) bool) {
 				t := callTerm(s.Name, vars...)
 				env := real.EnvSpec{Rep: "raw", Binds: binds}
 				emit(progCase("grid-env", t, env, fmtEnv(env)))
+				// the arguments read again after the call: a built-in must not write into its operands
+				{
+					names := []string{"r"}
+					parts := []*gen.Term{t}
+					for i, v := range vars {
+						names = append(names, fmt.Sprintf("p%d", i))
+						parts = append(parts, v)
+					}
+					emit(progCase("grid-reread", gen.ObjT(names, parts...), env, fmtEnv(env)))
+				}
 				hostOK := true
 				for _, a := range args {
 					if !real.HostRepresentable(a.T, true, "map") {
@@ -206,6 +216,25 @@ func (c04) Generate(tier string, yield func(*engine.Case) bool) {
 		}
 	}
 	recLit("")
+	// ---- every comparison operator under each negation, over numbers, strings, instants and booleans
+	{
+		t1 := ref.TimeV(t0)
+		t2 := ref.TimeV(t0.Add(time.Second))
+		for _, pr := range [][2]*ref.V{{ref.NumV(1), ref.NumV(2)}, {ref.NumV(2), ref.NumV(2)}, {ref.NumV(3), ref.NumV(2)}, {ref.StrV("a"), ref.StrV("b")}, {ref.StrV("b"), ref.StrV("b")},
+			{t1, t2}, {t2, t2}, {t2, t1}, {ref.BoolV(true), ref.BoolV(false)}, {ref.BoolV(true), ref.BoolV(true)}} {
+			env := real.EnvSpec{Rep: "raw", Binds: []real.Binding{{Name: "x", V: pr[0]}, {Name: "y", V: pr[1]}}}
+			for _, op := range []string{"<", "<=", ">", ">=", "==", "!="} {
+				cmp := gen.Infix(op, gen.VarT("x"), gen.VarT("y"))
+				if _, err := ref.NewChecker(real.StdHost().RefFuns(), env.Types()).Check(cmp); err != nil {
+					continue
+				}
+				for _, t := range []*gen.Term{gen.Prefix("!", gen.GroupT(cmp)), gen.Prefix("not", gen.GroupT(cmp)), gen.Prefix("!", gen.Prefix("!", gen.GroupT(cmp))),
+					gen.CallT("if", gen.Prefix("!", gen.GroupT(cmp)), gen.NumT(1), gen.NumT(2)), gen.Infix("&&", gen.Prefix("!", gen.GroupT(cmp)), cmp), gen.Infix("==", gen.Prefix("!", gen.GroupT(cmp)), cmp)} {
+					emit(progCase("negated-comparisons", t, env, fmtEnv(env)))
+				}
+			}
+		}
+	}
 	// ---- two literals in ONE program that are equal, within the comparison tolerance, or just outside it
 	for _, a := range []float64{0, 1, 2, 0.1, 1e9, -3} {
 		for _, dlt := range []float64{0, 1e-10, 5e-10, 9.9e-10, 1e-9, 2e-9, -3e-10} {
@@ -372,7 +401,7 @@ func (c04) Run(c *engine.Case) *engine.Result {
 	d := loadProg(c)
 	h := real.StdHost()
 	p := observe(d.Term, d.Env, h, real.Backends, false)
-	res := &engine.Result{Execs: p.Execs, Outcome: p.outcomeSummary(), NonTrivial: d.Term.Op == "call" || d.Term.Op == "sub" || d.Term.Op == "mem" || c.Family == "numlit" || c.Family == "timelit" || c.Family == "literal-pairs"}
+	res := &engine.Result{Execs: p.Execs, Outcome: p.outcomeSummary(), NonTrivial: d.Term.Op == "call" || d.Term.Op == "sub" || d.Term.Op == "mem" || c.Family == "numlit" || c.Family == "timelit" || c.Family == "literal-pairs" || c.Family == "grid-reread" || c.Family == "negated-comparisons"}
 	res.Violations = p.judgeValues()
 	if p.RefErr != nil {
 		// the generator only produces well-typed programs: a reference rejection is a harness defect
